@@ -54,7 +54,7 @@ CHECKS = {
    text='Decks of 2-10 slab cells with importances from cell-card keywords, IMP:x data cards with nR/nM/nI shorthand, or a mix; the converted VOLU set must equal the non-zero-importance cells and the NOTE line must list exactly the zero-importance cells.',
    note='Trusted: importance rule as restated in the property; harness-side shorthand expansion.'),
  'C13': dict(cat='exploration', ref='5/C13',
-   tech='metamorphic property-based testing across all flag combinations + unit-level property on remove_duplicate_surfaces',
+   tech='metamorphic property-based testing across all flag combinations (generated decks and the shipped example decks as a fixed corpus) + unit-level property on remove_duplicate_surfaces',
    text='Each generated deck (with duplicated surfaces) is converted under all 8 flag combinations with drawn inline scores; every decided point must read the same (provenance, composition) as in the reference output. Generated SurfaceT4 dictionaries check that de-duplication merges only identical surfaces.',
    note='Trusted: T4 evaluator; the verdict compares converter outputs with each other only.'),
  'C14': dict(cat='exploration', ref='5/C14',
@@ -66,9 +66,9 @@ CHECKS = {
    text='Generated base cells with every option family and LIKE n BUT cells overriding any subset of {mat, rho, u, fill, trcl, imp}, in chains and with forward references; the LIKE deck and the deck expanded by the harness model must convert to identical geometry / boundary conditions and numerically identical compositions.',
    note='Trusted: copy-and-override semantics as stated in the property (importances override per particle type).'),
  'C16': dict(cat='exploration', ref='5/C16',
-   tech='property-based testing: generated flag placements with duplicates, randomized zero-set identity test between flagged MCNP surfaces and the SURFs named by the boundary-condition entries',
+   tech='property-based testing: generated flag placements with duplicates, transformations and universes; randomized zero-set identity test (in every frame of use) between flagged MCNP surfaces and the SURFs named by the boundary-condition entries; written copies of a flagged card found metamorphically by nudging the card; deterministic flagged-macrobody decks',
    text='Decks with reflecting / white flags, flagged and unflagged duplicates under smaller and larger numbers, unused flagged surfaces and flagged macrobodies, with and without de-duplication; every entry must name a written SURF with the zero set of a flagged surface of the right kind, every flagged written surface gets exactly one entry, flagged macrobodies are rejected.',
-   note='Trusted: keyword mapping * -> REFLECTION, + -> COSINUS taken from the writer;'),
+   note='Trusted: keyword mapping * -> REFLECTION, + -> COSINUS taken from the writer; one known finding K02 (cone sheets merged by de-duplication).'),
  'C17': dict(cat='fault_enumeration', ref='5/C17',
    tech='fault injection: every fault class of the statement injected at drawn applicable sites of generated valid decks, plus exhaustive per-mnemonic and per-lattice-option enumeration',
    text='Each fault class listed in the property is injected into decks that are first shown to convert; the run must stop with an error that names the problem (not an incidental IndexError/KeyError/TypeError... with a stock message). Entry-count faults are enumerated for every mnemonic, lattice-option faults on fixed 1/2/3-D lattices.',
